@@ -227,7 +227,7 @@ func (h *H) random(n int) {
 	rng := h.c.Rng
 	done := 0
 	for done < n {
-		cfg := Cfg{Active: rng.Intn(2) == 0, Validate: rng.Intn(2) == 0, Equip: rng.Intn(2) == 0}
+		cfg := Cfg{Active: rng.Intn(2) == 0, Validate: rng.Intn(2) == 0, Equip: rng.Intn(2) == 0, Trace: rng.Intn(2) == 0}
 		switch rng.Intn(4) {
 		case 0:
 			cfg.Sid = 0xFFFF
@@ -249,6 +249,7 @@ func (h *H) random(n int) {
 			})
 			done++
 		}
+		h.c.Count("cfg:trace=" + b01(cfg.Trace))
 		h.session(cfg, fmt.Sprintf("random-%s", map[bool]string{true: "active", false: "passive"}[cfg.Active]), gens)
 	}
 }
